@@ -162,7 +162,21 @@ func judge(r *ev.Report, e expr, layout []int, out string, want map[rune]oracle.
 	}
 }
 
+// problemIdx: style.Problem takes an error, i.e. a plain message that it sanitises like
+// every other remote string; it is only meaningful directly on a leaf.
+var problemIdx = func() int {
+	for i, f := range fns {
+		if f.Name == "Problem" {
+			return i
+		}
+	}
+	return -1
+}()
+
 func runExpr(r *ev.Report, e expr, maxLayout int) int64 {
+	if e.F == problemIdx || (e.Form == "A" && e.G == problemIdx) {
+		return 0
+	}
 	var n int64
 	defer func() {
 		if x := recover(); x != nil {
@@ -202,7 +216,7 @@ func runExpr(r *ev.Report, e expr, maxLayout int) int64 {
 func main() {
 	r := ev.New("C14", "exploration",
 		"every style expression f(g(h(leaf))) and f(g(leaf)+h(leaf')) over 17 style functions (incl. identity) and 5 leaves each, followed by every sequence of layout "+
-			"operations (12 ops: Wrap/DumbWrap/Pad at 1,3,80, two Indents, Snip) of length <= 1 (quick) / <= 2 (thorough); SGR machine checks per-letter attributes, "+
+			"operations (12 ops: Wrap/DumbWrap/Pad at 1,3,80, two Indents, Snip) of length <= 1 (quick) / <= 2 (thorough); the whole enumeration is repeated (with one layout step less) under a second palette whose colour triples end in 1, 3, 4 and 9; SGR machine checks per-letter attributes, "+
 			"neutrality at every line end and end of string, and that layout keeps attributes; distinct_nontrivial counts distinct expressions with at least one letter and one non-identity style")
 	debug.SetGCPercent(800)
 	if *ev.FlagReplay != "" {
@@ -255,12 +269,46 @@ func main() {
 		r.Eval(evals)
 		r.AddCounts(0, nt)
 	})
+	// second palette: colour triples ending in the digits of the attribute codes (1, 3, 4, 9),
+	// so that any confusion between a colour's digits and an attribute code shows
+	saved := config.Parsed.Style.Colors
+	config.Parsed.Style.Colors.Primary, config.Parsed.Style.Colors.Error = "0;10;1", "3;13;3"
+	config.Parsed.Style.Colors.Highlight, config.Parsed.Style.Colors.Code = "4;0;4", "9;9;9"
+	par.ForBlock(nA+nB, 0, func(lo, hi int64) {
+		var evals int64
+		for c := lo; c < hi; c++ {
+			var e expr
+			k := c
+			if c < nA {
+				e.Form = "A"
+			} else {
+				e.Form = "B"
+				k -= nA
+			}
+			e.F = int(k % F)
+			k /= F
+			e.G = int(k % F)
+			k /= F
+			e.H = int(k % F)
+			k /= F
+			e.X = int(k % int64(len(leavesX)))
+			k /= int64(len(leavesX))
+			if e.Form == "B" {
+				e.Y = int(k)
+			}
+			evals += runExpr(r, e, maxLayout-1)
+		}
+		r.Eval(evals)
+	})
+	config.Parsed.Style.Colors = saved
+	r.Extra["palettes"] = 2
 	r.Sample(map[string]any{"expr": expr{"A", 1, 9, 12, 3, 0}.String(), "layouts": "all sequences up to the bound"})
 	r.Sample(map[string]any{"expr": expr{"B", 14, 13, 5, 2, 3}.String()})
 	r.Extra["expressions"] = nA + nB
 	r.Extra["layout_ops"] = len(lops)
 	r.Extra["max_layout_len"] = maxLayout
 	r.Assumptions = append(r.Assumptions,
+		"style.Problem (which takes an error and sanitises its message) is applied to plain leaves only",
 		"decoration cells that style functions add themselves (quote bar, bullet, link number, header glyphs, indentation, padding, ellipsis) are judged for neutrality only, not for their attributes",
 		"where two colours of the same kind are nested the innermost one is expected (it is applied last)",
 		"SGR machine models set/reset of the attributes servitor uses; it is not a terminal emulator")
